@@ -70,6 +70,18 @@ CHECKS = {
         note=(TB_COMMON + "float32 log is an oracle: the implementation's exponent must lie between the exact exponents of x(1-2^-18) and "
               "x(1+2^-18); breakpoint shifts below that are invisible. tf.pow(2, integer) assumed exact (any inexactness shows as a mismatch)."),
         technique="Coq proof over an exact rational model (floor-log2 specification) + differential correspondence with a tolerance band for float32 log"),
+    "C07": dict(
+        category="proof",
+        text=("Coq theorems (Properties/C07.v): both return expressions (STE and non-STE) equal surrogate + f*(quantized - surrogate) for "
+              "all rationals, f=0 gives the surrogate and f=1 the quantized value; the build/update state machine returns the last factor "
+              "set in every order; for the scheduler, with np.power an oracle constrained only by range/monotonicity, the factor is 0 before "
+              "start, 1 from finish, monotone in the step, and for EVERY sequence of callback hooks the applied factors never decrease and "
+              "every quantizer with the knob holds the latest one (induction over the hook list). Correspondence: float32-faithful mixing "
+              "model vs the implementation over four storage routes; the real QNoiseScheduler driven over random schedules and hook histories."),
+        design_ref="DESIGN.md section 5 C07, section 10",
+        note=(TB_COMMON + "np.power is a Section variable with four named hypotheses (denominator positive, 0 at 0, range, monotone); the run "
+              "instantiates it with integer exponents and compares to 2^-48. Keras's Callback plumbing is replaced by stand-in model/layer objects."),
+        technique="Coq proof (ring identities, induction over hook histories, oracle as Section variable) + differential correspondence"),
 }
 
 NOT_YET = "check not built yet in this development (design in DESIGN.md section 5); not a claim that proof is inapplicable"
